@@ -621,6 +621,9 @@ func run(c *core.Ctx) {
 		}
 	}
 
+	// (0) page selection among several subtitle pages on air (page numbers 00, shared numbers across magazines, auto-detection)
+	pageSelRun(c)
+
 	// (1) every word up to the length bound x transmission mode, plain multiplexing
 	var word []string
 	var serial bool
@@ -827,6 +830,9 @@ func shortCases() (out []Case) {
 
 func replay(sub string, raw json.RawMessage) (string, bool) {
 	log.SetOutput(io.Discard)
+	if sub == "pagesel" {
+		return pageSelReplay(raw)
+	}
 	var cs Case
 	if err := json.Unmarshal(raw, &cs); err != nil {
 		return err.Error(), false
